@@ -107,7 +107,8 @@ def monitor(events, who, server=False):
 
 def oracle(stream, cid, ops, outs):
     fails = E.trap_failures(ops, outs)
-    sev, cev, log, delivered, calls = E.replay(ops, outs)
+    tl = []
+    sev, cev, log, delivered, calls = E.replay(ops, outs, timeline=tl)
     # client side: one connection per client object
     for i, evs in cev.items():
         m = monitor([(t, tag) for (t, tag, _) in evs], "client %s" % i)
@@ -116,9 +117,9 @@ def oracle(stream, cid, ops, outs):
     # server side per address, with drop calls interleaved as terminal markers
     peers = set(p for (_, _, p, _) in sev)
     for p in peers:
-        seq = [(t, 2, tag) for (t, tag, q, _) in sev if q == p] + [(t, 1, "drop") for (t, w, q) in calls if w == "sdrop" and q == p] \
-            + [(t, 0, "syn") for (t, dr, q, d) in delivered if dr == "c2s" and q == p and d.get("kind") == "syn"]
-        seq.sort(key=lambda x: (x[0], x[1]))
+        # in operation order: a datagram is handed to the server's socket (fwd / raw) before the step() that reads it, and a
+        # drop() issued right after a step() comes after that step's events although the virtual time is the same
+        seq = [(t, 0, tag) for (t, tag, q) in tl if q == p]
         m = monitor([(t, tag) for (t, _, tag) in seq], "server/peer %d" % p, server=True)
         if m:
             fails.append({"oracle": "event_grammar", "detail": m, "signature": {"oracle": "event_grammar", "side": "server"}})
